@@ -230,6 +230,7 @@ def run_programs_on(res, gw, rng_seed, n, label, big):
                 norm.append(o)
         out.append(norm)
     out.append(callback_error_program(res, gw, label))
+    out.append(stderr_volume_program(res, gw, label))
     tr, want, nbytes = run_bulk(gw, rng, big)
     res.count("bulk_bytes", nbytes)
     if tr != want:
@@ -253,6 +254,35 @@ channel.receive()
 other.send(("other channel still works", seen))
 channel.send("exec channel still works")
 """
+
+
+STDERR_VOLUME = r"""
+import os, sys
+for i in range(channel.receive()):
+    os.write(2, b"." * 20000 + b"\n")
+    sys.stderr.write("e" * 2000 + "\n")
+    channel.send(("answer", i))
+"""
+
+
+def stderr_volume_program(res, gw, label):
+    """remote code that is chatty on its standard error (several hundred KB over its lifetime): wherever that output ends up,
+    the channel program goes on - the same on every way of reaching a worker"""
+    tr = []
+    try:
+        ch = gw.remote_exec(STDERR_VOLUME)
+        ch.send(12)
+        for i in range(12):
+            tr.append(ch.receive(20))
+        ch.waitclose(20)
+        tr.append("closed")
+    except BaseException as e:  # noqa
+        tr.append(type(e).__name__)
+    res.count("stderr_volume_programs")
+    want = [("answer", i) for i in range(12)] + ["closed"]
+    if tr != want:
+        res.violation(f"program-stalls-on-stderr-volume:{label}", f"{short(tr[-3:], 200)} after {len(tr)} of {len(want)} steps")
+    return tr
 
 
 def callback_error_program(res, gw, label):
